@@ -80,6 +80,16 @@ def gen_flows(rng, tier):
     cfg.update({"ftype": "realnvp", "linear_transform": "svd"})
     cases.append({"name": "realnvp-svd-lowdim", "seed": rng.randrange(1 << 30), "dims": rng.choice([2, 3, 4]), "state": "fresh",
                   "flow_config": cfg, "n_points": 6, "epochs": 30})
+    # resampled (LARS) base distribution, Gaussian fixed or trainable: a random draw of the base distribution's own parameters
+    # after training, finalised as a training run is, then probed like every flow AND integrated on a 2-d grid
+    for k in range(3 if tier == "quick" else 8):
+        cfg = dict(base)
+        cfg.update({"ftype": "realnvp", "distribution": "lars"})
+        if k % 3:
+            cfg["distribution_kwargs"] = {"trainable": True}
+        cases.append({"name": "realnvp-lars" + ("-trainable" if k % 3 else ""), "seed": rng.randrange(1 << 30), "dims": 2,
+                      "state": "trained", "ops": ["train", "perturb_base"] + (["fwd"] if k % 2 else []), "flow_config": cfg,
+                      "n_points": 6, "epochs": 30, "integrate": True})
     if tier != "quick":
         for name in ("realnvp-default", "maf", "nsf"):
             cfg = dict(base)
@@ -117,6 +127,9 @@ def gen_ins(rng, tier):
             out.append({"seed": rng.randrange(1 << 30), "flow_config": {"n_blocks": 2, "n_neurons": 8}, "reparam": reparam,
                         "n_flows": n_flows, "n": 10, "reset_flow": rng.random() < 0.7, "n_bigs": sorted(bigs),
                         "prior": priors[len(out) % len(priors)],
+                        # exact zero weights: none / one flow / the initial proposal / several
+                        "zero_ids": [z for z in [[], [0], [-1], [0, -1], [n_flows - 1], [-1]][len(out) % 6]
+                                     if n_flows > 1 or z == 0 or len(out) % 6 != 3],
                         "draw_ns": [1, rng.choice([2, 5, 13]), rng.choice([40, 101]), rng.choice([300, 777])]})
     return out
 
@@ -153,7 +166,8 @@ def run(chk):
         "glue uses exact dyadic arithmetic on the recorded float components with the tolerance stated in coq/Run/C08_run.v",
         "NOT proved: 'in two dimensions the density integrates to one' - thorough tier integrates a trained 2-d flow on a grid as "
         "numeric validation only",
-        "the LARS (resampled) base distribution is not exercised: its log-density is a Monte Carlo estimate",
+        "the LARS (resampled) base distribution carries a Monte Carlo estimate of its normalisation: its 2-d grid integral is "
+        "compared with the sampled mass inside the grid at 3 % + 3.5 sigma (exact flows: 1 %)",
     ]
     chk.static_props(["C08"], ["C08_run"])
     jobs = []
@@ -250,7 +264,8 @@ def run(chk):
             if "integral" in r:
                 chk.oracle_validations += 1
                 chk.notes.append(f"{tag} {label}: grid integral of exp(log_prob) over the plane = {r['integral']:.4f} (validation only)")
-                chk.count("integral-within-3-percent" if abs(r["integral"] - 1.0) < 0.03 else "integral-off")
+                chk.count("integral-within-3-percent-of-the-sampled-grid-mass"
+                          if abs(r["integral"] - r.get("grid_mass", 1.0)) < 0.03 else "integral-off")
     chk.oblige(f"oracle hypothesis layer_ok holds numerically for each of the {n_layers} real layers / rescalings exercised",
                "oracle", not layers_bad, "; ".join(layers_bad[:5]))
     hdr = (common.COQ_HEADER + "From NessaiV Require Import Model.C08_Flow Run.C08_run.\nLocal Open Scope Z_scope.\n")
